@@ -9,8 +9,9 @@
    default; [declared_wires] = what each method's commands must carry). *)
 From Coq Require Import ZArith List Bool String.
 Require Import Rig.Model.Base Rig.Generated.GenSignatures Rig.Generated.GenCtxGeometry Rig.Model.Context
+               Rig.Generated.GenContextShape
                Rig.Spec.Context Rig.Proofs.Context Rig.Proofs.ContextBlocks Rig.Proofs.ContextWire
-               Rig.Proofs.ContextStop.
+               Rig.Proofs.ContextStop Rig.Proofs.ContextDeepen.
 Import ListNotations.
 Open Scope string_scope.
 Open Scope list_scope.
@@ -200,3 +201,71 @@ Example C18_interrupt_instance :
       EvCall "send_signal" ([stop_wire 3 (VInt 66)], None)],
      [[("app_id", VInt 66)]], false).
 Proof. exact ex_interrupt_instance. Qed.
+
+(* ---- kept Context objects.  A Context object made from kw -- kept in a variable or not, entered on top of
+   ANY stack (also one that already holds the same object, any number of times) -- contributes exactly the
+   arguments it was made with: inside its block an argument has the value kw gives it, else the value in
+   force outside.  (Model: entering pushes a frame equal to kw; update_current_context is not applied to a
+   kept object, see Model/Context.v OWith.) *)
+Theorem C18_kept_context_contributes :
+  forall n kw s,
+    stack_lookup n (s ++ [mkdict kw]) = match slast n kw with Some v => Some v | None => stack_lookup n s end.
+Proof. exact kept_context_contributes. Qed.
+
+(* ---- leaving a block BY AN EXCEPTION restores the stack (explicit corollaries of exit_restores) *)
+Theorem C18_exit_by_exception_restores :
+  forall c cls kw blk s ev s', run_op c cls (OWith kw blk) s = (ev, s', true) -> s' = s.
+Proof. exact exit_by_exception_restores. Qed.
+
+Theorem C18_application_exit_by_exception_restores :
+  forall c cls pos kw blk intr s ev s', run_op c cls (OApp pos kw blk intr) s = (ev, s', true) -> s' = s.
+Proof. exact application_exit_by_exception_restores. Qed.
+
+(* ---- discover_connections as a step on the controller (Model/Context.v discover_step): the dimensions are
+   those of the machine as it is NOW, connections held are retained, a new connection belongs to an Ethernet
+   chip of the current machine whose probe was answered, and afterwards a command leaves by the connection of
+   the chip's own board per the CURRENT dimensions (else by the initial one) -- for any earlier state c, in
+   particular one left by the discovery of a larger machine. *)
+Theorem C18_discover_dimensions :
+  forall m c, c_width (discover_step m c) = Some (dm_w m) /\ c_height (discover_step m c) = Some (dm_h m).
+Proof. exact discover_dimensions. Qed.
+
+Theorem C18_discover_retains :
+  forall m c xy k, cassoc xy (c_conns c) = Some k -> cassoc xy (c_conns (discover_step m c)) = Some k.
+Proof. exact discover_retains. Qed.
+
+Theorem C18_discover_new_are_kept :
+  forall m c xy k, cassoc xy (c_conns c) = None -> cassoc xy (c_conns (discover_step m c)) = Some k ->
+    In (xy, (true, k)) (dm_eth m).
+Proof. exact discover_new_are_kept. Qed.
+
+Theorem C18_rediscovery_uses_current_dimensions :
+  forall m c x y,
+    exists rx ry, c_root (discover_step m c) = Some (rx, ry) /\
+      mc_get_connection (discover_step m c) (VInt x) (VInt y)
+      = Some (match cassoc (c18_local_eth_coord x y (dm_w m) (dm_h m) rx ry) (c_conns (discover_step m c)) with
+              | Some k => k | None => 0 end).
+Proof. exact rediscovery_uses_current_dimensions. Qed.
+
+(* ---- the source still has the shape the model follows (Generated/GenContextShape.v is produced only then) *)
+Theorem C18_context_shape_as_modelled :
+  ctxshape_merge_oldest_first = true /\ ctxshape_wrapper_steps = [1; 2; 3; 4; 5; 6; 7]
+  /\ ctxshape_exit_steps = [1; 2] /\ ctxshape_exit_pop_in_finally = true /\ ctxshape_update_innermost = true
+  /\ ctxshape_discover_dims_fresh = true /\ ctxshape_boards_copied = true
+  /\ List.length ctxshape_functions = 22%nat.
+Proof. exact context_shape_as_modelled. Qed.
+
+Example C18_rediscovery_instance :
+  flat_ctl (discover_step ex_m2 (discover_step ex_m1 ex_ctl0))
+  = (12, 12, [(0, 0)], [((0, 0), 1); ((8, 4), 3); ((12, 0), 4); ((20, 4), 5); ((4, 8), 102)])
+  /\ mc_get_connection (discover_step ex_m1 ex_ctl0) (VInt 0) (VInt 4) = Some 5
+  /\ mc_get_connection (discover_step ex_m2 (discover_step ex_m1 ex_ctl0)) (VInt 0) (VInt 4) = Some 3.
+Proof. exact ex_rediscovery_instance. Qed.
+
+(* board collections (set_led / set_power; covered by C18_wire_carries_resolved through SFirst / FBit) *)
+Example C18_board_collection_instance :
+  call FUEL ex_ctl "BMP" "set_led" [[("cabinet", VInt 0); ("frame", VInt 0); ("board", VSeq [2; 0; 5])]] [VInt 1] []
+  = ([MkWire 1 0 (VInt 0) (VInt 0) (VInt 2) (VInt SCP_led) [] [(FBit, 1%nat, 0, VSeq [2; 0; 5])]], None)
+  /\ call FUEL ex_ctl "BMP" "set_power" [[("cabinet", VInt 0); ("frame", VInt 0)]] [VBool true] [("board", VSeq [2; 0; 5])]
+  = ([MkWire 0 0 (VInt 0) (VInt 0) (VInt 0) (VInt SCP_power) [] [(FBit, 1%nat, 0, VSeq [2; 0; 5])]], None).
+Proof. exact ex_board_collection_instance. Qed.
